@@ -252,20 +252,53 @@ int main(int argc, char** argv) {
 		}
 	}
 	else if (part == "branch") { // CBRANCH with engineered 0 / 1 / 2 consecutive takes, and concretised abstract programs (W, S, N, B over r0-r2)
-		int np = thorough ? 2197 : 500;
+		int np = atoi(arg(argc, argv, "--np", thorough ? "2197" : "500"));
 		for (int pi = 0; pi < np; ++pi) {
 			rng.fill(P.buf, 128); nop_fill(P, rng);
 			int n = 0;
 			int len = 3 + (int)rng.below(thorough ? 4 : 3);
 			for (int a = 0; a < len && n < 40; ++a) {
-				int kind = (int)rng.below(15); uint8_t d = (uint8_t)rng.below(3), s2 = (uint8_t)((d + 1 + rng.below(2)) % 3);
+				int kind = (int)rng.below(18); uint8_t d = (uint8_t)rng.below(3), s2 = (uint8_t)((d + 1 + rng.below(2)) % 3);
 				// between the elements: IMUL_RCP with a zero / power-of-two divisor on r0-r2 (a no-op that is NOT a register write, 5.2.8)
 				if (rng.below(2) && n < 40) put(P, n++, 76, (uint8_t)(rng.below(3) | (rng.next() & 0xf8)), (uint8_t)rng.next(), (uint8_t)rng.next(), rng.below(3) ? (1u << rng.below(32)) : 0u);
-				if (kind >= 13) { // V(d): an instruction that leaves the value of d unchanged but IS a write of d for the last-writer table
+				if (kind == 13 || kind == 14) { // V(d): an instruction that leaves the value of d unchanged but IS a write of d for the last-writer table
 					static const uint8_t vop[] = { 106, 106, 114, 86, 23, 46 };   // IROR_R, IROR_R, IROL_R, IXOR_R, ISUB_R, IMUL_R with src = dst (immediate operand)
 					int w = (int)rng.below(6); uint32_t im = w < 3 ? 64u * rng.below(4) : (w == 5 ? 1u : 0u);
 					put(P, n++, vop[w], d, d, (uint8_t)rng.next(), im);
 					if (rng.below(2)) { uint8_t cond = (uint8_t)rng.below(16); put(P, n++, (uint8_t)(214 + rng.below(25)), d, 0, (uint8_t)(cond << 4), (uint32_t)rng.next()); }
+					continue;
+				}
+				if (kind >= 15) { // L(d): a loop whose body is really re-executed: set d; body that does not write d and has no branch; CBRANCH d taken once or twice
+					uint8_t cond = (uint8_t)rng.below(16); int b = cond + 8; int want = 1 + (int)rng.below(2);
+					uint32_t im = 0, d0 = 0; bool found = false;
+					for (int tr = 0; tr < 4000000 && !found; ++tr) {
+						im = (uint32_t)rng.next(); d0 = (uint32_t)rng.next();
+						uint64_t cimm = ((uint64_t)(int64_t)(int32_t)im | (1ull << b)) & ~(1ull << (b - 1));
+						uint64_t v = (uint64_t)(int64_t)(int32_t)d0; int takes = 0;
+						for (int k = 0; k < 3; ++k) { v += cimm; if ((v & (255ull << b)) == 0) ++takes; else break; }
+						found = takes == want;
+					}
+					put(P, n++, 46, d, d, 0, 0); put(P, n++, 23, d, d, 0, (uint32_t)(0 - d0));
+					int body = 1 + (int)rng.below(4);
+					bool rmotif = rng.below(3) == 0;      // body = rounding FP instruction(s) then CFROUND, and a CFROUND right after the loop: the re-executed FP instruction must use the mode set INSIDE the loop
+					if (rmotif) {
+						static const uint8_t fpo[] = { 124, 145, 172, 208, 140, 204 };
+						put(P, n++, fpo[rng.below(6)], (uint8_t)rng.next(), (uint8_t)rng.next(), (uint8_t)rng.next(), imm_value(rng));
+						if (rng.below(2)) put(P, n++, fpo[rng.below(4)], (uint8_t)rng.next(), (uint8_t)rng.next(), (uint8_t)rng.next(), imm_value(rng));
+						put(P, n++, 239, (uint8_t)rng.next(), (uint8_t)((d + 1 + rng.below(7)) % 8), 0, (uint32_t)rng.below(64));
+						body = 0;
+					}
+					for (int q = 0; q < body && n < 44; ++q) {
+						static const uint8_t pool[] = { 124, 145, 172, 208, 166, 120, 239, 239, 240, 140, 161, 204, 76, 0, 23, 46, 86, 106, 84, 116 };
+						uint8_t op = pool[rng.below(20)]; uint8_t e = (uint8_t)((d + 1 + rng.below(7)) % 8);     // integer writers write some OTHER register
+						uint32_t imx = op == 76 ? (rng.below(2) ? 0u : (1u << rng.below(32))) : imm_value(rng);
+						uint8_t dd = op == 76 ? d : (op >= 120 && op < 214 ? (uint8_t)rng.next() : e);
+						uint8_t ss = op == 116 ? dd : (uint8_t)rng.next();                                            // ISWAP_R e,e: no-op
+						if (op == 116 && (ss & 7) != (dd & 7)) ss = dd;
+						put(P, n++, op, dd, ss, (uint8_t)rng.next(), imx);
+					}
+					put(P, n++, (uint8_t)(214 + rng.below(25)), d, (uint8_t)rng.next(), (uint8_t)((cond << 4) | (rng.next() & 15)), im);
+					if (rmotif || rng.below(2)) put(P, n++, 239, (uint8_t)rng.next(), (uint8_t)rng.next(), 0, (uint32_t)rng.below(64));   // a CFROUND right after the loop
 					continue;
 				}
 				if (kind < 3) { // W(d): some writer of d
